@@ -119,6 +119,24 @@ def execute(prop, plan, variant="plain", trace=False):
     except Precondition as p:
         res["precondition"] = True
         res["why"] = str(p)
+    except Exception as e:
+        # an exception nobody expected: if it was raised by the package's own
+        # Python code (a frame inside the BTrees overlay) it is the package
+        # misbehaving where the scenario had no reason to guard -- a
+        # violation of the scenario's property; anything else is a harness
+        # error and is re-raised
+        import traceback
+        where = None
+        for fs in traceback.extract_tb(e.__traceback__):
+            if "/BTrees/" in fs.filename.replace("\\", "/"):
+                where = fs.name
+        if where is None or isinstance(e, (MemoryError, RecursionError)):
+            raise
+        res["violation"] = {
+            "sig": {"oracle": "unexpected-exception",
+                    "exc": type(e).__name__, "where": where},
+            "detail": "".join(traceback.format_exception(
+                type(e), e, e.__traceback__))[-1500:]}
     res["digest"] = ctx.digest()
     res["steps"] = ctx.steps
     res["ctx"] = ctx
